@@ -368,6 +368,7 @@ def history_free(ctx: Ctx, prop: str):
     mask_argmax(ctx, prop, files)
     sentinel_intact(ctx, prop, files)
     zero_is_a_value(ctx, prop, files)
+    order_from_set(ctx, prop, files)
     if n_funcs == 0:
         raise AnalysisError("HISTORY-FREE: no function of the anchored modules was examined")
 
@@ -621,3 +622,148 @@ def zero_is_a_value(ctx: Ctx, prop: str, files):
                 for b in bad[:1]:
                     ctx.finding("ZERO-IS-A-VALUE", f, b, f"{f.name} tests its `{p_}` parameter by truth value (`{src(b)[:50]}`): {p_}=0 -- the first axis / mode / position -- is falsy and takes the route meant for {p_}=None, so the result for {p_}=0 is computed as if no {p_} had been given", construct=f"{f.name}: truth test of {p_}")
     res.instance("ZERO-IS-A-VALUE", f"{prop}: position-like parameters defaulting to None in the anchored modules", sample={"parameters": n})
+
+
+# ---------------------------------------------------------------------------------
+# ORDER-FROM-SET: a sequence whose order means something is never read off a set
+# ---------------------------------------------------------------------------------
+_SET_METHODS = {"union", "difference", "intersection", "symmetric_difference", "copy"}
+_ORDER_FREE_CONSUMERS = {"sorted", "len", "min", "max", "sum", "any", "all", "set", "frozenset", "bool"}
+
+
+def _set_typed_names(fnode) -> Set[str]:
+    """local names every assignment of which binds a set-typed expression (fixpoint over the function)."""
+    assigns: Dict[str, list] = {}
+    for x in own_scope_nodes(fnode):
+        if isinstance(x, ast.Assign):
+            for t in x.targets:
+                if isinstance(t, ast.Name):
+                    assigns.setdefault(t.id, []).append(x.value)
+                else:
+                    for n_ in ast.walk(t):
+                        if isinstance(n_, ast.Name):
+                            assigns.setdefault(n_.id, []).append(None)
+        elif isinstance(x, ast.AugAssign) and isinstance(x.target, ast.Name):
+            assigns.setdefault(x.target.id, []).append(x.value if isinstance(x.op, (ast.Sub, ast.BitOr, ast.BitAnd, ast.BitXor)) else None)
+        elif isinstance(x, (ast.For, ast.comprehension)):
+            for n_ in ast.walk(x.target):
+                if isinstance(n_, ast.Name):
+                    assigns.setdefault(n_.id, []).append(None)
+        elif isinstance(x, (ast.With, ast.NamedExpr)):
+            for n_ in ast.walk(x):
+                if isinstance(n_, ast.Name) and isinstance(n_.ctx, ast.Store):
+                    assigns.setdefault(n_.id, []).append(None)
+    params = {a.arg for a in ast.walk(fnode.args) if isinstance(a, ast.arg)}
+    names: Set[str] = set()
+    changed = True
+    while changed:
+        changed = False
+        for nm, vs in assigns.items():
+            if nm in names or nm in params:
+                continue
+            # an augmented `s -= other` keeps a set a set only if s already is one: needs a plain set binding too
+            if all(v is not None and _is_set_expr(v, names | {nm}) for v in vs) and any(_is_set_expr(v, names) for v in vs if v is not None):
+                names.add(nm)
+                changed = True
+    return names
+
+
+def _is_set_expr(e, set_names: Set[str]) -> bool:
+    if isinstance(e, (ast.Set, ast.SetComp)):
+        return True
+    if isinstance(e, ast.Name):
+        return e.id in set_names
+    if isinstance(e, ast.Call):
+        if isinstance(e.func, ast.Name) and e.func.id in ("set", "frozenset"):
+            return True
+        if isinstance(e.func, ast.Attribute) and e.func.attr in _SET_METHODS and _is_set_expr(e.func.value, set_names):
+            return True
+        return False
+    if isinstance(e, ast.BinOp) and isinstance(e.op, (ast.Sub, ast.BitOr, ast.BitAnd, ast.BitXor)):
+        return _is_set_expr(e.left, set_names) or _is_set_expr(e.right, set_names)
+    if isinstance(e, ast.IfExp):
+        return _is_set_expr(e.body, set_names) and _is_set_expr(e.orelse, set_names)
+    return False
+
+
+def _ordered_reads_of_sets(fnode):
+    """(node, set expression, how) for every place of the function that turns a set into an ordered sequence."""
+    names = _set_typed_names(fnode)
+    parents = {}
+    for x in ast.walk(fnode):
+        for c in ast.iter_child_nodes(x):
+            parents[c] = x
+    own = set(map(id, own_scope_nodes(fnode)))
+
+    def order_free(node):
+        """the sequence built at `node` is consumed at once by something that ignores order"""
+        par = parents.get(node)
+        return isinstance(par, ast.Call) and node in par.args and isinstance(par.func, ast.Name) and par.func.id in _ORDER_FREE_CONSUMERS
+
+    out = []
+    for x in ast.walk(fnode):
+        if id(x) not in own and not isinstance(x, ast.comprehension):
+            continue
+        if isinstance(x, ast.Call) and isinstance(x.func, ast.Name) and x.func.id in ("list", "tuple", "enumerate", "zip", "iter", "next", "reversed") and x.args:
+            for a in x.args:
+                if _is_set_expr(a, names) and not order_free(x):
+                    out.append((x, a, f"`{x.func.id}(...)` of a set"))
+        elif isinstance(x, ast.Starred) and _is_set_expr(x.value, names) and not isinstance(parents.get(x), ast.Set):
+            out.append((x, x.value, "`*` unpacking of a set"))
+        elif isinstance(x, (ast.ListComp, ast.GeneratorExp)):
+            g = x.generators[0]
+            if _is_set_expr(g.iter, names) and not order_free(x):
+                if isinstance(x, ast.GeneratorExp):
+                    par = parents.get(x)
+                    if not (isinstance(par, ast.Call) and isinstance(par.func, ast.Name) and par.func.id in ("list", "tuple")):
+                        continue
+                out.append((x, g.iter, "a list built by iterating a set"))
+        elif isinstance(x, ast.For) and _is_set_expr(x.iter, names):
+            ordered_effect = None
+            for y in x.body:
+                for z in ast.walk(y):
+                    if isinstance(z, ast.Call) and isinstance(z.func, ast.Attribute) and z.func.attr in ("append", "insert", "extend"):
+                        ordered_effect = z
+                    elif isinstance(z, (ast.Yield, ast.YieldFrom)):
+                        ordered_effect = z
+            if ordered_effect is not None:
+                out.append((x, x.iter, f"a loop over a set that builds a sequence (`{src(ordered_effect)[:40]}`)"))
+    return out, names
+
+
+_ORDER_FROM_SET_WITNESS = """
+def f(tensor, row_modes):
+    rest = set(range(tensor.ndim)) - set(row_modes)
+    column_modes = list(rest)
+    ok = sorted(rest)
+    n = len(list(rest))
+    return [m for m in rest], column_modes, ok, n
+"""
+
+
+def order_from_set(ctx: Ctx, prop: str, files):
+    """The iteration order of a set is not part of its value.  Modes, axes, ranks and factors are all addressed by
+    position here, so a list / tuple read off a set (`list(S)`, `[.. for m in S]`, `*S`, a loop over S that appends)
+    carries an order nothing in the code determines; `sorted(S)` (or an order-free use: len, in, min, max, sum) is
+    the accepted form."""
+    repo, res = ctx.repo, ctx.res
+    res.rule("ORDER-FROM-SET", "in the anchored modules no ordered sequence (list(...), tuple(...), a list comprehension, `*` unpacking, enumerate / zip, a loop that appends) is read off a set-typed expression (set(...), a set literal / comprehension, a set difference / union / intersection, a local only ever bound to one) unless through sorted(...) or an order-free consumer (len, min, max, sum, any, all, set): modes, axes and factors are addressed by position and a set has no order", floor=1)
+    # the rule's expected number of reports is zero: a positive example that must be recognised on every run
+    w = ast.parse(_ORDER_FROM_SET_WITNESS).body[0]
+    hits, _ = _ordered_reads_of_sets(w)
+    if len(hits) != 2:
+        raise AnalysisError(f"ORDER-FROM-SET: the built-in positive example gave {len(hits)} reports instead of 2; the detector is broken")
+    n_funcs = n_sets = 0
+    for rel in files:
+        mod = next((m for m in repo.modules.values() if m.rel == rel), None)
+        if mod is None:
+            continue
+        for f in [g for g in repo.functions.values() if g.module is mod]:
+            n_funcs += 1
+            hits, names = _ordered_reads_of_sets(f.node)
+            n_sets += len(names)
+            if names or hits:
+                res.instance("ORDER-FROM-SET", f"{f.qname}: set-typed locals {sorted(names)}", sample={"ordered_reads": len(hits), "ok": not hits})
+            for node, sexpr, how in hits[:2]:
+                ctx.finding("ORDER-FROM-SET", f, node, f"{f.name}: {how}: `{src(node)[:90]}` takes its order from the set `{src(sexpr)[:60]}`, whose iteration order is not determined by its elements (it depends on hash-table size and insertion history); whatever is addressed by position through this sequence (modes, axes, factors) is re-ordered for some inputs. Use sorted(...)", construct=f"{f.name}: ordered read of set `{src(sexpr)[:40]}`")
+    res.instance("ORDER-FROM-SET", f"{prop}: functions of the anchored modules examined (positive example recognised)", sample={"functions": n_funcs, "set_typed_locals": n_sets})
